@@ -14,6 +14,8 @@ import MosnVerif.Drive.C08H1
 import MosnVerif.Drive.C08Set
 import MosnVerif.Drive.C08Trail
 import MosnVerif.Model.NeedMoreLive
+import MosnVerif.Drive.C08Chk
+import MosnVerif.Model.CheckedWire
 /-! driver of C08 (malformed input contained): see `run` for the case kinds. Core Lean only. -/
 namespace MosnVerif.Drive.C08
 open MosnVerif.Drive MosnVerif.Model.Framing MosnVerif.Model.FrameBytes MosnVerif.Model.FrameChk MosnVerif.Model.KVBlock
@@ -72,13 +74,16 @@ Payload parsers and HPACK may accept or refuse (oracles): the implementation mus
 def h2dec (bytes : String) (impl : List String) : String :=
   match unhex bytes, impl with
   | some b, [o] =>
-    let m (p g : Bool) := showStep (MosnVerif.Model.FrameH2.h2Step MosnVerif.Gen.FrameConsts.http2_defaultMaxReadFrameSize
-      (fun _ => p) (fun _ => g) true b)
+    -- [c08p10] the payload parsers are the REGENERATED ones (Gen/C08H2Parse), no longer an oracle; only the verdict on a
+    -- complete header block (HPACK + validation) may go either way
+    let gp : List UInt8 → Bool := fun frame => MosnVerif.Model.CheckedWire.genParse? frame == some .ok
+    let m (g : Bool) := showStep (MosnVerif.Model.FrameH2.h2Step MosnVerif.Gen.FrameConsts.http2_defaultMaxReadFrameSize
+      gp (fun _ => g) true b)
     -- a failing ReadFrame consumes nothing, or (stream errors) the complete frame / header-block group
-    let errs := (MosnVerif.Model.FrameH2.errDrains MosnVerif.Gen.FrameConsts.http2_defaultMaxReadFrameSize (fun _ => true) b).map
+    let errs := (MosnVerif.Model.FrameH2.errDrains MosnVerif.Gen.FrameConsts.http2_defaultMaxReadFrameSize gp b).map
       (fun n => s!"error:{n}")
-    let allowed := dedup ([m true true, m true false, m false true] ++
-      (if (m true false).startsWith "error" || (m false true).startsWith "error" then errs else []))
+    let allowed := dedup ([m true, m false] ++
+      (if (m true).startsWith "error" || (m false).startsWith "error" then errs else []))
     let agree := allowed.contains o
     let spec := match parseOutcome o with
       | some oc => specContained b.length oc
@@ -289,6 +294,10 @@ def run (caseToks impl : List String) : String :=
   | ["h2up", method, frames] => h2up method frames impl
   | ["h2trail", side, toks] => MosnVerif.Drive.C08Trail.h2trail side toks impl
   | ["h2set", setting, hdr, body] => MosnVerif.Drive.C08Set.h2set setting hdr body impl
+  | ["mat", name, bytes] => MosnVerif.Drive.C08Chk.mat name bytes impl
+  | ["h2pay", ty, flags, sid, payload] => MosnVerif.Drive.C08Chk.h2pay ty flags sid payload impl
+  | ["h2hl", limit, fields] => MosnVerif.Drive.C08Chk.h2hl limit fields impl
+  | ["h2body", side, cl, chunks, endS] => MosnVerif.Drive.C08Chk.h2body side cl chunks endS impl
   | ["disp", proto, bytes] => disp proto bytes impl
   | ["pool", api, st] => pool api st impl
   | ["dmeta", listener, kinds, nargs, _] => MosnVerif.Drive.C08Dubbo.dmeta listener kinds nargs impl
